@@ -21,6 +21,8 @@ func checkC02(c *Ctx) {
 	r022(c)
 	r023(c)
 	r024(c, "R02.4 proxy-error-inventory")
+	// in-flight requests are only cut off by the drain protocol's deadline (shared with C03)
+	r031(c, "R02.5 in-flight-requests-survive-until-drain-deadline")
 }
 
 // R02.1 deploy step order.
@@ -306,8 +308,12 @@ func r023(c *Ctx) {
 	}
 	// (an in-place edit of the request table under the write lock would be race-free, so
 	// "replaced wholesale" is deliberately not a rule; the lockset obligations above cover it)
+	c.servicesWriteRebuilds(rule)
+}
+
+// servicesWriteRebuilds: both writers of ServiceMap.services rebuild the request table on every path (shared by C02, C04, C05, C16).
+func (c *Ctx) servicesWriteRebuilds(rule string) {
 	upd := c.method("ServiceMap", "updateRequestServiceMap")
-	// both writers of ServiceMap.services rebuild the table on every path
 	svc := c.field("ServiceMap", "services")
 	for _, a := range c.accessesOf(svc) {
 		if !a.write || fname(outer(a.fn)) == "server.NewServiceMap" {
